@@ -61,10 +61,14 @@ def find_class(tree, name):
 
 
 def is_static(fn):
+    """"static" for @staticmethod (no receiver at all: the body cannot touch the object),
+    "class" for @classmethod, None otherwise"""
     for d in fn.decorator_list:
-        if isinstance(d, ast.Name) and d.id in ("staticmethod", "classmethod"):
-            return True
-    return False
+        if isinstance(d, ast.Name) and d.id == "staticmethod":
+            return "static"
+        if isinstance(d, ast.Name) and d.id == "classmethod":
+            return "class"
+    return None
 
 
 class MethodScan(object):
@@ -77,7 +81,8 @@ class MethodScan(object):
         self.lock_fields = lock_fields
         self.field_id = field_id
         args = fn.args.posonlyargs + fn.args.args
-        self.selfname = args[0].arg if args else None
+        self.static = is_static(fn) == "static"
+        self.selfname = None if self.static else (args[0].arg if args else None)
         self.stmts = []
         # local name -> field: `x = self.F.m(...)` may hand out a live view of the shared object
         # (dict.keys(), .items(), ...); every later use of x counts as a content read of F
@@ -344,7 +349,7 @@ class MethodScan(object):
             i += 1
 
     def run(self):
-        if self.selfname is None:
+        if self.selfname is None and not self.static:
             self.emit(self.fn.lineno, "unknown", None, [], [])
         else:
             self.block(self.fn.body, None, False)
@@ -372,7 +377,7 @@ def scan_target(repo, tgt):
     methods = []          # (qualified name, owner, FunctionDef)
     for cname, cd, _ in classes:
         for n in cd.body:
-            if isinstance(n, (ast.FunctionDef,)) and not is_static(n):
+            if isinstance(n, (ast.FunctionDef,)) and is_static(n) != "class":
                 methods.append((cname + "." + n.name, cname, n))
             elif isinstance(n, ast.AsyncFunctionDef):
                 problems.append("async method %s" % n.name)
